@@ -21,6 +21,7 @@ type Gen struct {
 	typeIDs  map[string]int
 	strLits  map[string]string
 	unstable map[string]bool
+	viaUse   map[string]map[string]bool
 	timeoutS int
 	seed     int
 	verbose  bool
